@@ -133,7 +133,20 @@ class ProgGen:
             return ("peer", v(), v())
         if k < 0.65:
             return ("tmp", r.randint(1, 99))
+        if k < 0.665:
+            return ("mthrow", r.randint(1, 99))
+        if k < 0.68:
+            return ("newf", v(), r.randint(0, 1))
         if not in_func:
+            k2 = r.random()
+            if k2 < 0.05:
+                return ("tdel", "T", 0 if r.random() < 0.7 else r.randint(0, 3))
+            if k2 < 0.10:
+                return ("tins", "T", r.randint(0, 1) if r.random() < 0.8 else r.randint(0, 4), v())
+            if k2 < 0.15:
+                return ("tcat", "T", v())
+            if k2 < 0.20:
+                return ("fall", "T")
             if k < 0.71:
                 return ("tnew", "T", r.randint(1, 3) if r.random() < 0.9 else 0, v())
             if k < 0.78:
@@ -229,6 +242,18 @@ def render(block, ind, depth=0):
             out.append(p + "%s = %s.at(%d);" % (ins[1], ins[2], ins[3]))
         elif k == "tmp":
             out.append(p + "NN = vmod(%d).id();" % ins[1])
+        elif k == "tdel":
+            out.append(p + "%s.delete(%d);" % (ins[1], ins[2]))
+        elif k == "tins":
+            out.append(p + "%s.insert(%d, %s);" % (ins[1], ins[2], ins[3]))
+        elif k == "tcat":
+            out.append(p + "%s.concat(%s);" % (ins[1], ins[2]))
+        elif k == "fall":
+            out.append(p + "forall EE in %s loop NN = EE.id(); end loop;" % ins[1])
+        elif k == "mthrow":
+            out.append(p + "NN = vmod(%d).fail(1);" % ins[1])
+        elif k == "newf":
+            out.append(p + "%s = vmod(%s);" % (ins[1], "true" if ins[2] else "false"))
         elif k == "call":
             out.append(p + "%s = %s(%s);" % (ins[1], ins[2], ", ".join(ins[3])))
         elif k == "callt":
@@ -263,7 +288,7 @@ def render_func(name, nparams, body):
     return lines
 
 
-PROLOGUE = ["import vmod;", "ZN:vmod; A:vmod; B:vmod; C:vmod; D:vmod; CT:vmod; NN = 0;", "T = tab(1, ZN);"]
+PROLOGUE = ["import vmod;", "ZN:vmod; A:vmod; B:vmod; C:vmod; D:vmod; CT:vmod; EE:vmod; NN = 0;", "T = tab(1, ZN);"]
 PROLOGUE_INSTR = [("tnew", "T", 1, "ZN")]
 
 
@@ -307,6 +332,18 @@ class C17(VmodCheck):
                  "Not reachable from scripts: libblocc and the shipped modules only use the copy constructor and the destructor",
          "witness": "Complex b(std::move(a)); /* a.~Complex() */"},
     ]
+
+    EXTRA_FINDINGS.append(
+        {"property": "C17", "id": "C17.deinit_with_live_objects_null_call", "status": "known",
+         "site": "blocc/complex.cpp:70 (Complex::~Complex) / blocc/plugin_manager.h:51 (plugged) / PluginManager::destroy",
+         "what": "bloc_deinit_plugins() while a context still holds an object: the module instance is deleted and its library closed; "
+                 "when the last reference disappears later, ~Complex asks the NEW, empty PluginManager for plugged(type id), gets the "
+                 "placeholder entry whose instance is null and calls instance->destroyObject through the null pointer (UBSan: member call on "
+                 "null pointer, then SIGSEGV). The object never reaches its module's destructor. If the module is imported again first, "
+                 "methods and the destructor of the new instance receive the handle created by the old one. The header only says the "
+                 "function SHOULD be called on program exit",
+         "witness": "import vmod; A = vmod(1);  -- host: bloc_deinit_plugins(); bloc_free_context(ctx);",
+         "why_recorded": "C17: every object a module constructor created is handed back to the module's destructor exactly once, no later than the release of the contexts involved"})
 
     def hazard_kf(self, c, hazard):
         return "C17.moved_from_handle_null_deref" if hazard == "nullDeref" else None
@@ -378,6 +415,116 @@ class C17(VmodCheck):
             cases.append(Case("r%d" % n_recv, "", "plugreset|new 0 t|prog 0 %s|vlog|free 0|vlog|live" % hx(text),
                               {"family": "recv", "src": text, "nomodel": True, "manyrefs": True}))
         self.stats["receiver_cases"] = n_recv
+        # ---- receivers that are RESULTS of expressions whose static type names one module while the value belongs to the
+        # other: a function declared `return <m1>` that returns an object of <m2> on some branch, the method called
+        # directly on the call / on an element of the returned table / on a chained method result
+        n_rr = 0
+        for m1, m2 in (("vmod", "vmod2"), ("vmod2", "vmod")):
+            for meth in ("id()", "self()", "spawn(5)", "peer(A)", "tag()"):
+                for shape in ("call", "callvar", "chain", "tabfn", "loop"):
+                    defs = ("import vmod;\nimport vmod2;\nA = %s(9);\n"
+                            "function pick(n) return %s is begin if n == 1 then return %s(1); end if; return %s(2); end;\n"
+                            "function pick3(n) return %s is begin T = tab(2, %s(4)); if n == 1 then T = tab(2, %s(3)); end if; return T.at(1); end;\n"
+                            % (m1, m1, m1, m2, m1, m2, m1))
+                    if shape == "call":
+                        calls = ["NN = pick(1).%s;" % meth, "NN = pick(2).%s;" % meth]
+                    elif shape == "callvar":
+                        calls = ["K = 2;\nNN = pick(K).%s;" % meth, "K = 1;\nNN = pick(K).%s;" % meth, "NN = pick(K + 1).%s;" % meth]
+                    elif shape == "chain":
+                        calls = ["NN = pick(2).self().%s;" % meth, "NN = pick(1).self().%s;" % meth]
+                    elif shape == "tabfn":
+                        calls = ["NN = pick3(1).%s;" % meth, "NN = pick3(2).%s;" % meth]
+                    else:
+                        calls = ["for K in 1 to 3 loop begin NN = pick(K).%s; exception when others then NN = 0; end; end loop;" % meth]
+                    n_rr += 1
+                    ops = ["plugreset", "new 0 t", "prog 0 %s" % hx(defs), "vlog"]
+                    for cl in calls:
+                        ops += ["prog 0 %s" % hx(cl + "\n"), "vlog"]
+                    ops += ["free 0", "vlog", "live"]
+                    cases.append(Case("rr%d" % n_rr, "", "|".join(ops),
+                                      {"family": "recv", "sub": "result-receiver", "src": defs + "\n".join(calls), "nomodel": True}))
+        self.stats["result_receiver_cases"] = n_rr
+        # ---- a host that runs programs ending in `return <object>` again and again on one context and never takes the
+        # returned value (bloc_reset_stop only), through the C API; then purge / free: nothing may be lost
+        n_ret = 0
+        ret_progs = [
+            ["import vmod;\nA = vmod(1);\nreturn A;", "B = vmod(2);\nreturn B;", "return vmod(3);", "return A;"],
+            ["import vmod;\nreturn vmod(1);", "return vmod(2);", "return vmod(3);", "return vmod(4);"],
+            ["import vmod;\nT = tab(2, vmod(1));\nreturn T;", "return T.at(0);", "return tab(3, vmod(2));", "return 5;"],
+            ["import vmod;\nfunction mk(n) return vmod is begin return vmod(n); end;\nreturn mk(1);", "return mk(2).self();", "X = mk(3);\nreturn X;", "return X;"],
+            ["import vmod;\nA = vmod(1);\nreturn tup(A, 1);", "return tup(vmod(2), 2);", "return tup(A, 3);"],
+        ]
+        for progs in ret_progs:
+            for nrun in range(1, len(progs) + 1):
+                for ending in ("free", "purge-free", "dropret-free", "clone-free"):
+                    n_ret += 1
+                    ops = ["plugreset", "unban api %s" % hx("vmod"), "capinew 0"]
+                    for t in progs[:nrun]:
+                        ops += ["retrun 0 %s" % hx(t + "\n"), "vlog"]
+                    if ending == "purge-free":
+                        ops += ["purge 0", "vlog"]
+                    elif ending == "dropret-free":
+                        ops += ["dropret 0", "vlog"]
+                    elif ending == "clone-free":
+                        ops += ["capiclone 0 1", "vlog", "free 1", "vlog"]
+                    ops += ["free 0", "vlog", "live"]
+                    cases.append(Case("rt%d" % n_ret, "", "|".join(ops),
+                                      {"family": "recv", "sub": "returned-not-taken", "src": " // ".join(progs[:nrun]) + " // " + ending, "nomodel": True}))
+        self.stats["returned_not_taken_cases"] = n_ret
+        # ---- a constructor or a method fails in the middle of building a container or an argument list: what was built
+        # before the failure must still reach the destructor (exactly once) by the time the context is released
+        n_cf = 0
+        fail_exprs = [
+            "T = tab(3, vmod(10 / (5 - vmod(0).id())));",                 # element expression raises at the 3rd repetition
+            "T = tab(4, vmod(10 / (3 - vmod(0).id())));",                 # ... at the 2nd
+            "T = tab(2, vmod(true));",                                     # constructor returns no object at the 1st
+            "TU = tup(vmod(1), vmod(true));", "TU = tup(vmod(1), 2, vmod(false));", "TU = tup(vmod(1), vmod(2).fail(1));",
+            "X = F2(vmod(1), vmod(true));", "X = F2(vmod(1), vmod(2).fail(1));", "X = F2(vmod(true), vmod(1));",
+            "T = tab(1, vmod(1));\nT.concat(vmod(true));", "T = tab(1, vmod(1));\nT.concat(vmod(2)).concat(vmod(false));",
+            "T = tab(1, vmod(1));\nT.put(0, vmod(true));", "T = tab(2, vmod(1));\nT.insert(1, vmod(false));",
+            "NN = vmod(1).peer(vmod(true));", "NN = vmod(1).peer(vmod(false));", "NN = vmod(1).spawn(2).peer(vmod(3).spawn(4).self().spawn(5 / (0 * vmod(6).id())));", "A = vmod(1);\nNN = A.fail(0);", "A = vmod(1);\nNN = A.fail(1);",
+            "A = vmod(1).spawn(2).spawn(3).fail(1);", "A = vmod(1);\nA = vmod(true);", "A = vmod(1);\nB = A;\nA = vmod(false);",
+            "T = tab(2, tab(2, vmod(10 / (4 - vmod(0).id()))));",
+        ]
+        pre = "import vmod;\nfunction F2(p1:vmod, p2:vmod) return vmod is begin return p1; end;\n"
+        for fe in fail_exprs:
+            for wrap in ("top", "handler", "func", "loop"):
+                if wrap == "top":
+                    body = fe
+                elif wrap == "handler":
+                    body = "begin\n%s\nexception when others then NN = 0;\nend;\nZ = vmod(77);" % fe
+                elif wrap == "func":
+                    body = "function w9() return integer is begin\n%s\nreturn 1; end;\nbegin NN = w9(); exception when others then NN = 0; end;\nNN = w9();" % fe
+                else:
+                    body = "for K in 1 to 2 loop\nbegin\n%s\nexception when others then NN = 0;\nend;\nend loop;" % fe
+                for ending in ("free", "purge-free"):
+                    n_cf += 1
+                    ops = ["plugreset", "new 0 t", "prog 0 %s" % hx(pre), "vlog", "prog 0 %s" % hx(body + "\n"), "vlog",
+                           "prog 0 %s" % hx("Y = vmod(88);\nNN = Y.id();\n"), "vlog"]
+                    if ending == "purge-free":
+                        ops += ["purge 0", "vlog"]
+                    ops += ["free 0", "vlog", "live"]
+                    cases.append(Case("cf%d" % n_cf, "", "|".join(ops),
+                                      {"family": "recv", "sub": "failure-while-building", "src": body + " // " + ending, "nomodel": True}))
+        self.stats["failure_while_building_cases"] = n_cf
+        # ---- bloc_deinit_plugins: after every context is released (the documented use) it is clean; while an object is
+        # still referenced the later release calls through a null module instance (recorded finding)
+        P = "import vmod;\nA = vmod(1);\nB = A;\nT = tab(2, A);\n"
+        cases.append(Case("dq1", "", "|".join(["plugreset", "new 0 t", "prog 0 %s" % hx(P), "vlog", "free 0", "vlog", "deinit", "live"]),
+                          {"family": "deinit", "liveobj": False, "src": P}))
+        cases.append(Case("dq2", "", "|".join(["plugreset", "new 0 t", "prog 0 %s" % hx(P), "vlog", "clone 0 1", "purge 0", "vlog", "free 1", "vlog", "free 0", "vlog", "deinit", "live"]),
+                          {"family": "deinit", "liveobj": False, "src": P}))
+        cases.append(Case("dq3", "", "|".join(["plugreset", "new 0 t", "prog 0 %s" % hx(P), "vlog", "deinit", "free 0", "vlog", "live"]),
+                          {"family": "deinit", "liveobj": True, "src": P}))
+        # ---- part M of the model (Model/Plugin.lean, namespace M): objects of two modules in three variables, constructors
+        # that fail, copies, drops, method calls compiled for either module on whatever the variable holds at run time
+        n_m = 0
+        mdist = {}
+        for _ in range(300 if quick else 3000):
+            n_m += 1
+            cases.append(self.meth_case("m%d" % n_m, mdist))
+        self.stats["meth_cases"] = n_m
+        self.stats["meth_step_distribution"] = dict(sorted(mdist.items()))
         for cid, case in self.fixed_obj_cases():
             cases.append(case)
         self.stats["cases"] = len(cases)
@@ -409,6 +556,14 @@ class C17(VmodCheck):
                     script.append(("prog", 1, g.block(r.randint(1, 6), 2, OBJ_VARS), False))
             if r.random() < 0.5:
                 script.append(("prog", 0, g.block(r.randint(1, 6), 2, OBJ_VARS), False))
+            if r.random() < 0.35:
+                # a host that runs programs ending in `return X` and does not take the value (or takes it now and then)
+                for _ in range(r.randint(1, 4)):
+                    kk = r.choice(live)
+                    if r.random() < 0.25:
+                        script.append(("dropret", kk))
+                    else:
+                        script.append(("retprog", kk, g.block(r.randint(0, 3), 1, OBJ_VARS) + [("ret", r.choice(OBJ_VARS))]))
             # any release order: a clone may outlive its origin (this order crashed - heap-use-after-free in
             # Context::~Context - until /repo commit 4769647; finding C17.clone_outlives_origin_uaf, now 'fixed')
             r.shuffle(live)
@@ -427,9 +582,16 @@ class C17(VmodCheck):
                 nroot += 1
             elif st[0] == "prog":
                 _, k, block, first = st
+                self._count_instrs(block)
                 text = (PROLOGUE + ftext if first else []) + render(block, 0)
                 instrs = (PROLOGUE_INSTR if first else []) + block
                 host("prog %d %s" % (k, hx("\n".join(text) + "\n")), "prog:%d:%s" % (k, ",".join(toks(instrs)) or "id.ZN"))
+            elif st[0] == "retprog":
+                _, k, block = st
+                self._count_instrs(block)
+                host("retrun %d %s" % (k, hx("\n".join(render(block, 0)) + "\n")), "retprog:%d:%s" % (k, ",".join(toks(block))))
+            elif st[0] == "dropret":
+                host("dropret %d" % st[1], "dropret:%d" % st[1])
             elif st[0] == "clone":
                 host("clone %d %d" % (st[1], st[2]), "clone:%d:%d" % (st[1], st[2]))
                 roots[st[2]] = nroot
@@ -453,6 +615,191 @@ class C17(VmodCheck):
         return Case(cid, "obj " + " ".join(words), "|".join(ops),
                     {"family": "obj", "release_seg": release_seg, "nseg": seg, "origin_first": origin_first})
 
+
+    MODS = ["vmod", "vmod2"]
+
+    def meth_case(self, cid, dist):
+        """a straight-line history, one statement per `prog` op; the Lean side runs the same history as MOps"""
+        r = self.rng
+        vars_ = ["A", "B", "C"]
+        held = {v: None for v in vars_}     # var -> (slot, module index)
+        nslot = 0
+        words = ["nc"]
+        ops = ["plugreset", "new 0 t",
+               "prog 0 %s" % hx("import vmod;\nimport vmod2;\nZN0:vmod; ZN1:vmod2;\nA:vmod; B:vmod; C:vmod2; NN = 0;\n"), "vlog"]
+        expect = ["ok"]
+        steps = []
+        for _ in range(r.randint(3, 10)):
+            k = r.random()
+            x = r.choice(vars_)
+            if k < 0.25:
+                m, arg = r.randint(0, 1), r.randint(1, 99)
+                text = "%s = %s(%d);" % (x, self.MODS[m], arg)
+                words.append("c.0.%d" % m)
+                old = held[x]
+                held[x] = (nslot, m); nslot += 1
+                if old:
+                    words.append("clr.%d" % old[0])
+                expect.append("ok"); kind = "new"
+            elif k < 0.33:
+                m = r.randint(0, 1)
+                text = "%s = %s(%s);" % (x, self.MODS[m], r.choice(["true", "false"]))
+                words.append("cf.0.%d" % m)
+                expect.append("rerr"); kind = "newfail"
+            elif k < 0.45:
+                ys = [v for v in vars_ if v != x and held[v]]
+                if not ys:
+                    continue
+                y = r.choice(ys)
+                text = "%s = %s;" % (x, y)
+                words.append("cl.%d.0" % held[y][0])
+                old = held[x]
+                held[x] = (nslot, held[y][1]); nslot += 1
+                if old:
+                    words.append("clr.%d" % old[0])
+                expect.append("ok"); kind = "copy"
+            elif k < 0.53:
+                m = held[x][1] if held[x] else r.randint(0, 1)
+                text = "%s = ZN%d;" % (x, m)
+                if held[x]:
+                    words.append("clr.%d" % held[x][0])
+                held[x] = None
+                expect.append("ok"); kind = "drop"
+            else:
+                ms = r.randint(0, 1)       # the module the call is compiled for
+                full = [v for v in vars_ if held[v]]
+                if full and r.random() < 0.85:
+                    x = r.choice(full)
+                if held[x] and r.random() < 0.6:
+                    ms = held[x][1]
+                peers = [v for v in vars_ if held[v] and held[v][1] == ms]
+                if peers and r.random() < 0.4:
+                    y = r.choice(peers)
+                    call, name, args = "peer(%s)" % y, "peer", ["O:@%d" % held[y][0]]
+                else:
+                    name = r.choice(["id", "tag"])
+                    call, args = name + "()", []
+                # the parser's idea of the variable's type: a branch that never runs
+                text = "if false then %s = %s(0); end if;\nNN = %s.%s;" % (x, self.MODS[ms], x, call)
+                if held[x]:
+                    words.append(".".join(["m", str(held[x][0]), str(ms), name] + args))
+                    bad = held[x][1] != ms
+                    expect.append("rerr" if bad else "ok")
+                    kind = "call-refused" if bad else "call"
+                else:
+                    expect.append("ok"); kind = "call-null"
+            dist[kind] = dist.get(kind, 0) + 1
+            steps.append(text)
+            ops += ["prog 0 %s" % hx(text + "\n"), "vlog"]
+        # the end of the session: release, then (sometimes) unload the modules - the documented order; or, rarely, the
+        # wrong order: bloc_deinit_plugins while the context still holds whatever it holds
+        e = r.random()
+        if e < 0.08:
+            ending = "deinit-first"
+            ops += ["deinit", "vlog", "free 0", "vlog", "live"]
+            words += ["dei", "rel.0"]
+        elif e < 0.40:
+            ending = "release-deinit"
+            ops += ["free 0", "vlog", "deinit", "vlog", "live"]
+            words += ["rel.0", "dei"]
+        else:
+            ending = "release"
+            ops += ["free 0", "vlog", "live"]
+            words.append("rel.0")
+        dist["end:" + ending] = dist.get("end:" + ending, 0) + 1
+        return Case(cid, "meth " + " ".join(words), "|".join(ops),
+                    {"family": "meth", "expect": expect, "ending": ending, "src": " // ".join(s_.replace("\n", " ") for s_ in steps)})
+
+    def judge_meth(self, c, iraw, m, stderr):
+        self.distinct.add(c.model_line)
+        if (m.get("model") or "").startswith("hazard nullDeref") and c.meta.get("ending") == "deinit-first":
+            # the model says: the release after bloc_deinit_plugins destroys an object through the deleted module instance
+            self.tally(c, iraw if iraw.startswith("crash") else "no-crash", m)
+            d = self.stats.setdefault("meth_deinit_first", {})
+            d["model hazard / " + iraw.split("|")[0][:24]] = d.get("model hazard / " + iraw.split("|")[0][:24], 0) + 1
+            if iraw.startswith(("crash ubsan:null", "crash segv")) and self.hit("C17.deinit_with_live_objects_null_call", c, iraw):
+                return
+            return self.record_violation("model: call through the unloaded module instance; the library did not crash that way", c, iraw, m, stderr)
+        if iraw.startswith("crash ") or iraw.endswith("diverges"):
+            self.tally(c, iraw, m)
+            return self.record_violation("the library crashed on a two-module method history", c, iraw, m, stderr)
+        parts = iraw.split("|")
+        outs = [p for p in parts[2:-1][0::2]]
+        logs = [p for p in parts[2:-1][1::2]]
+        lines = [l for lg in logs for l in lg[4:].split("~") if l]
+        self.tally(c, "ok", m)
+
+        def bad(what):
+            self.record_violation(what + " (%s)" % c.meta["src"][:300], c, "~".join(lines)[:1200],
+                                  {"model": "calls=%s mods=%s log=%s refused=%s failed=%s" % (m.get("calls"), m.get("mods"), m.get("log"), m.get("refused"), m.get("failed"))}, stderr)
+
+        if m.get("model") != "ok":
+            return bad("the model could not run the history: %s" % m.get("model"))
+        for l in lines:
+            if l.startswith(("M!", "D!")):
+                return bad("a method / destructor was executed on a dead or foreign object: " + l)
+        # outcomes of the statements (the last `out` is the free)
+        want = c.meta["expect"] + (["ok"] if c.meta.get("ending", "release") == "release" else ["ok", "ok"])
+        if c.meta.get("ending") == "deinit-first":
+            d = self.stats.setdefault("meth_deinit_first", {})
+            d["model ok / no object left"] = d.get("model ok / no object left", 0) + 1
+        got = ["ok" if o.startswith("ok") else o.split(" ")[0] for o in outs]
+        if got != want:
+            return bad("statement outcomes %s, expected %s" % (got, want))
+        mods = [int(x) for x in (m.get("mods") or "").split(",") if x != ""]
+        names, cnt = [], {}
+        for mo in mods:
+            cnt[mo] = cnt.get(mo, 0) + 1
+            names.append("%s#%d" % (self.MODS[mo], cnt[mo]))
+        mlog = [x for x in (m.get("log") or "").split(",") if x]
+        calls = []
+        for cl in [x for x in (m.get("calls") or "").split(",") if x]:
+            o, mo, at, name, args = cl.split("/")
+            import re as _re
+            args = _re.sub(r"O:#(\d+)", lambda mm: "O:" + names[int(mm.group(1)) - 1], args.replace(";", " "))
+            calls.append((int(o), int(mo), int(at), name, args))
+        # slots named in argument dumps -> object names: the model prints O:@<slot>=<object>
+        merged = []
+        ci = 0
+        for pos in range(len(mlog) + 1):
+            while ci < len(calls) and calls[ci][2] == pos:
+                o, mo, at, name, args = calls[ci]
+                merged.append("M %s %s %s" % (names[o], name, args or "-"))
+                ci += 1
+            if pos < len(mlog) and mlog[pos].startswith("C"):
+                merged.append("C " + names[int(mlog[pos][1:]) - 1])
+        icm = []
+        for l in lines:
+            w = l.split(" ")
+            if w[0] == "C":
+                icm.append("C " + w[1])
+            elif w[0] == "M":
+                icm.append("M %s %s %s" % (w[1], w[2], " ".join(w[3:]) or "-"))
+        if icm != merged:
+            return bad("constructor/method events of the modules %s differ from the model's %s" % (icm, merged))
+        nfail = len([l for l in lines if l.startswith("F ")])
+        if nfail != int(m.get("failed") or 0):
+            return bad("failing constructor calls: modules saw %d, model %s" % (nfail, m.get("failed")))
+        nref = len([o for o in outs if o.startswith("rerr")]) - nfail
+        if nref != int(m.get("refused") or 0):
+            return bad("method calls stopped by the receiver check: %d, model %s" % (nref, m.get("refused")))
+        gone = [l.split(" ")[1] for l in lines if l.startswith("D ")]
+        mgone = [names[int(x[1:]) - 1] for x in mlog if x.startswith("D")]
+        if sorted(gone) != sorted(mgone) or len(set(gone)) != len(gone) or sorted(gone) != sorted(names):
+            return bad("objects destroyed %s, model %s, created %s" % (gone, mgone, names))
+        live = parts[-1]
+        if any(int(x) > 0 for x in live[5:].split(",")):
+            return bad("modules report live objects at quiescence: " + live)
+
+    def _count_instrs(self, block):
+        d = self.stats.setdefault("obj_instruction_distribution", {})
+        for ins in block:
+            d[ins[0]] = d.get(ins[0], 0) + 1
+            if ins[0] == "try":
+                self._count_instrs(ins[1]); self._count_instrs(ins[2])
+            elif ins[0] == "loop":
+                self._count_instrs(ins[2])
+
     def fixed_obj_cases(self):
         """fixed programs replayed on every run: the former witnesses w1, w2 of the repaired finding
         C17.createEnv_arg_throw_leaks_context (now ordinary cases: every object destroyed exactly once, the bound
@@ -473,6 +820,19 @@ class C17(VmodCheck):
                  ("clone", 0, 1), ("prog", 0, [("nul", "A"), ("nul", "C"), ("tnew", "T", 0, "ZN")], False),
                  ("prog", 1, [("id", "A"), ("id", "C")], False), ("free", 1), ("free", 0)]
         out.append(("w3", self.obj_case("w3", g, funcs, script=basic)))
+        tour = [("new", 0), ("prog", 0, [("new", "A", 1), ("new", "B", 2), ("tnew", "T", 2, "A"), ("tcat", "T", "B"), ("tins", "T", 0, "B"),
+                                          ("tins", "T", 4, "ZN"), ("fall", "T"), ("tdel", "T", 1), ("nul", "A"), ("tdel", "T", 1), ("fall", "T"),
+                                          ("nul", "B"), ("tdel", "T", 0), ("tdel", "T", 0), ("fall", "T"), ("tmp", 5)], True),
+                ("prog", 0, [("new", "A", 3), ("mthrow", 4)], False), ("prog", 0, [("newf", "A", 1)], False), ("prog", 0, [("newf", "A", 0)], False),
+                ("prog", 0, [("id", "A"), ("tins", "T", 9, "A")], False), ("prog", 0, [("tdel", "T", 7)], False),
+                ("prog", 0, [("try", [("mthrow", 6)], [("id", "A")]), ("id", "A")], False), ("clone", 0, 1), ("prog", 1, [("fall", "T"), ("tcat", "T", "A")], False),
+                ("free", 0), ("free", 1)]
+        out.append(("w10", self.obj_case("w10", g, funcs, script=tour)))
+        rets = [("new", 0), ("prog", 0, [("new", "A", 1), ("new", "B", 2)], True), ("retprog", 0, [("ret", "A")]), ("retprog", 0, [("nul", "A"), ("ret", "B")]),
+                ("retprog", 0, [("new", "C", 3), ("ret", "C")]), ("retprog", 0, [("nul", "C"), ("nul", "B"), ("ret", "ZN")]), ("dropret", 0), ("dropret", 0),
+                ("retprog", 0, [("new", "D", 4), ("ret", "D")]), ("clone", 0, 1), ("retprog", 1, [("ret", "D")]), ("prog", 0, [("nul", "D")], False),
+                ("purge", 0), ("free", 0), ("free", 1)]
+        out.append(("w11", self.obj_case("w11", g, funcs, script=rets)))
         uaf = [("new", 0), ("prog", 0, [("new", "A", 1)], True), ("clone", 0, 1), ("free", 0), ("free", 1)]
         out.append(("w4", self.obj_case("w4", g, funcs, script=uaf)))
         # a call whose last argument raises after P1 was bound (the program ends there: a module's error is not caught by
@@ -513,6 +873,19 @@ class C17(VmodCheck):
             return self.judge_hops(c, iraw, m, stderr)
         if fam == "recv":
             return self.judge_recv(c, iraw, stderr)
+        if fam == "meth":
+            return self.judge_meth(c, iraw, m, stderr)
+        if fam == "deinit":
+            if c.meta["liveobj"]:
+                self.distinct.add(c.impl_line)
+                self.tally(c, iraw.split("|")[0] if not iraw.startswith("crash") else iraw, {})
+                if iraw.startswith("crash ubsan:null") or iraw.startswith("crash segv"):
+                    if self.hit("C17.deinit_with_live_objects_null_call", c, iraw):
+                        return
+                    return self.record_violation("crash when a context is released after bloc_deinit_plugins", c, iraw, {}, stderr)
+                # repaired upstream? then the object must have been destroyed exactly once
+                return self.judge_recv(c, iraw, stderr)
+            return self.judge_recv(c, iraw, stderr)
         return self.judge_obj(c, iraw, m, stderr)
 
     def judge_recv(self, c, iraw, stderr):
@@ -524,6 +897,17 @@ class C17(VmodCheck):
         logs = [p for p in parts if p.startswith("log=")]
         lines = [l for lg in logs for l in lg[4:].split("~") if l]
         self.tally(c, parts[2].split(" ")[0] if len(parts) > 2 else "?", {})
+        sub = c.meta.get("sub")
+        if sub:
+            d = self.stats.setdefault("outcomes_" + sub, {})
+            for p_ in parts:
+                w_ = p_.split(" ")[0]
+                if w_ in ("ok", "ok-", "ret", "rerr", "perr", "none", "nox"):
+                    key = w_ + ((":" + p_.split(" ")[1]) if w_ in ("rerr", "perr") and len(p_.split(" ")) > 1 else "")
+                    d[key] = d.get(key, 0) + 1
+            d["C-events"] = d.get("C-events", 0) + len([l for l in lines if l.startswith("C ")])
+            d["M-events"] = d.get("M-events", 0) + len([l for l in lines if l.startswith("M ")])
+            d["F-events"] = d.get("F-events", 0) + len([l for l in lines if l.startswith("F ")])
         for l in lines:
             if l.startswith(("M!", "D!")):
                 return self.record_violation("a method / destructor was executed on a dead or foreign object: %s (%s)" % (l, c.meta["src"].replace("\n", " ")[:200]),
@@ -548,7 +932,7 @@ class C17(VmodCheck):
         if sorted(made) != sorted(gone) or len(set(gone)) != len(gone):
             return self.record_violation("objects created %s, destroyed %s" % (made, gone), c, "~".join(lines)[:800], {"spec": "each object destroyed exactly once"}, stderr)
         live = [p for p in parts if p.startswith("live=")]
-        if live and int(live[-1][5:].split(",")[0]) != 0:
+        if live and any(int(x) > 0 for x in live[-1][5:].split(",")):
             return self.record_violation("module reports live objects at quiescence", c, "~".join(lines)[:800], {}, stderr)
 
     def judge_hops(self, c, iraw, m, stderr):
